@@ -63,17 +63,35 @@ fn generators() -> Vec<Gen> {
     g
 }
 
+/// A second, small alphabet for the ends of the exponent range: uniform scalings from 1e-36 to 1e18 (squares and cubes of the
+/// elements leave f32's range; the elements themselves are ordinary normal floats) with rotations, a shear and a permutation.
+fn scale_generators() -> Vec<Gen> {
+    let mut g: Vec<Gen> = vec![];
+    for s in [1e-36f32, 1e-30, 1e-25, 3e-24, 2e-23, 1e-20, 1e-12, 1e12, 1e18] { g.push(Gen { name: format!("scale[{s:e} x3]"), m: scale(vec3(s, s, s)), rotation: false }); }
+    for a in [30.0f32, 90.0, -45.0, 200.0] {
+        g.push(Gen { name: format!("rotate_x({a})"), m: rotate_x(degs(a)), rotation: true });
+        g.push(Gen { name: format!("rotate_y({a})"), m: rotate_y(degs(a)), rotation: true });
+        g.push(Gen { name: format!("rotate_z({a})"), m: rotate_z(degs(a)), rotation: true });
+    }
+    g.push(Gen { name: "basis(perm yzx)".into(), m: M4::from_basis(vec3(0.0, 1.0, 0.0), vec3(0.0, 0.0, 1.0), vec3(1.0, 0.0, 0.0)), rotation: false });
+    g.push(Gen { name: "basis(shear)".into(), m: M4::from_basis(vec3(1.0, 0.0, 0.0), vec3(0.5, 1.0, 0.0), vec3(-0.25, 2.0, 1.0)), rotation: false });
+    g.push(Gen { name: "translate[1,2,3]".into(), m: translate(vec3(1.0, 2.0, 3.0)), rotation: false });
+    g
+}
+
 fn probes() -> Vec<[f32; 3]> {
     let mut p = vec![];
     for x in [-1.0f32, 0.0, 2.5] { for y in [-3.0f32, 0.0, 1.0] { for z in [-0.5f32, 0.0, 7.0] { p.push([x, y, z]); } } }
     p
 }
 
-fn check_word(word: &[usize], gens: &[Gen], r: &mut Report) {
+fn check_word(word: &[usize], gens: &[Gen], r: &mut Report) { check_word_in(word, gens, "word", r) }
+
+fn check_word_in(word: &[usize], gens: &[Gen], kind: &str, r: &mut Report) {
     r.eval();
     let names: Vec<&str> = word.iter().map(|&i| gens[i].name.as_str()).collect();
     let key = |cl: &str| format!("{cl}|{}", names.join(" . "));
-    let case = || obj! {"kind" => "word", "word" => word.to_vec()};
+    let case = || obj! {"kind" => kind, "word" => word.to_vec()};
     // product = g[0] . g[1] . g[2]  (compose: apply rightmost first)
     let mut m: M4 = gens[word[0]].m;
     let mut md = d4(&m);
@@ -135,7 +153,8 @@ fn check_word(word: &[usize], gens: &[Gen], r: &mut Report) {
     let dref = det3(&mf);
     let had: f64 = (0..3).map(|i| (0..3).map(|j| mf[i][j] * mf[i][j]).sum::<f64>().sqrt()).product();
     r.margin("determinant", ((m.determinant() as f64) - dref).abs(), 1e-5 * dref.abs() + 16.0 * f32::EPSILON as f64 * had);
-    if ((m.determinant() as f64) - dref).abs() > 1e-5 * dref.abs() + 16.0 * f32::EPSILON as f64 * had + 2.0 * f32::MIN_POSITIVE as f64 { r.violation(key("determinant"), format!("determinant() = {}, f64 = {dref}", m.determinant()), case()); return; }
+    // (a determinant beyond f32's range is inf: the number format, not the function)
+    if dref.abs() < 3e38 && ((m.determinant() as f64) - dref).abs() > 1e-5 * dref.abs() + 16.0 * f32::EPSILON as f64 * had + 2.0 * f32::MIN_POSITIVE as f64 { r.violation(key("determinant"), format!("determinant() = {}, f64 = {dref}", m.determinant()), case()); return; }
     let Some(invd) = inv_affine(&mf) else { r.h("singular-skipped"); return; };
     let cond = fro3(&mf) * fro3(&invd) / 3.0;
     if cond > 1e3 { r.h("cond>1e3-skipped"); return; }
@@ -287,6 +306,17 @@ fn run_algebra(cfg: &Cfg) -> ! {
             let mut w = vec![];
             for _ in 0..len { w.push((i % n) as usize); i /= n; }
             check_word(&w, &gens, r);
+        }));
+    }
+    // the extreme-scale alphabet: all words of length <= 3 with exactly one scaling (two would leave the float range)
+    let gens2 = scale_generators();
+    let n2 = gens2.len() as u64;
+    for len in 2..=3u32 {
+        rep.merge(par_range(cfg, n2.pow(len), |mut i, r| {
+            let mut w = vec![];
+            for _ in 0..len { w.push((i % n2) as usize); i /= n2; }
+            if w.iter().filter(|&&k| k < 9).count() != 1 { return; }
+            check_word_in(&w, &gens2, "word-scale", r);
         }));
     }
     let mut r = Report::new();
@@ -492,8 +522,11 @@ fn check_camera(i: u64, r: &mut Report) {
 fn check_camera_empty_viewport(i: u64, r: &mut Report) {
     r.eval();
     let dims = [(8u32, 8u32), (16, 9), (5, 7)][(i % 3) as usize];
-    let (l, t, rr, b) = [(10u32, 2u32, 20u32, 6u32), (2, 12, 6, 20), (20, 20, 30, 30), (3, 3, 3, 6), (2, 5, 6, 5), (16, 0, 17, 4), (0, 9, 4, 12)][(i / 3 % 7) as usize];
-    let ortho = i / 21 % 2 == 1;
+    let (l, t, rr, b) = [(10u32, 2u32, 20u32, 6u32), (2, 12, 6, 20), (20, 20, 30, 30), (3, 3, 3, 6), (2, 5, 6, 5), (16, 0, 17, 4), (0, 9, 4, 12),
+        // requests that are empty because their bounds are reversed, with the smaller bound inside the frame (a mirrored viewport
+        // would light pixels there)
+        (4, 1, 2, 5), (1, 5, 4, 2), (5, 5, 1, 1), (20, 1, 3, 5), (1, 30, 4, 2)][(i / 3 % 12) as usize];
+    let ortho = i / 36 % 2 == 1;
     if l.min(dims.0) < rr.min(dims.0) && t.min(dims.1) < b.min(dims.1) { r.h("empty-viewport:not-empty-on-this-frame"); return; }
     let case = || obj! {"kind" => "camera-empty", "i" => i};
     let tag = format!("{dims:?}|{l},{t},{rr},{b}|{}", if ortho { "ortho" } else { "persp" });
@@ -680,6 +713,53 @@ fn check_first_person(i: u64, r: &mut Report) {
     r.nontrivial();
 }
 
+/// look_at over target distances from zero to the ends of the exponent range: whatever the distance, the view transform stays
+/// rigid and takes the camera to the origin (a target at the camera itself names no direction, but is no reason for a
+/// degenerate matrix); for distances whose square stays within f32 range the target lands on the positive depth axis.
+fn check_fp_look_at_scale(i: u64, r: &mut Report) {
+    r.eval();
+    let case = || obj! {"kind" => "fp-scale", "i" => i};
+    let dirs = [[1.0f32, 0.0, 0.0], [0.0, 0.0, -1.0], [0.0, 1.0, 0.0], [1.0, 1.0, 0.0], [-0.6, 0.3, 0.8], [0.25, -1.0, 0.5], [-1.0, -1.0, -1.0]];
+    let dists = [0.0f32, 1e-38, 1e-30, 1e-22, 3e-20, 1e-15, 1e-9, 1e-4, 1e4, 1e9, 1e15, 1.5e19, 1e25, 3e37];
+    let d = dirs[(i % 7) as usize];
+    let dist = dists[(i / 7 % 14) as usize];
+    // the camera at the origin, so that target - position is exactly the offset (and once away from it, for the distances
+    // that survive the addition)
+    let pos: Vec3 = if i / 98 == 0 { vec3(0.0, 0.0, 0.0) } else { vec3(-2.0, 0.0, 3.5) };
+    let pre = i / 196;
+    let mut fp = FirstPerson::new();
+    fp.pos = pos.to();
+    if pre == 1 { fp.rotate_to(degs(40.0), degs(-20.0)); }
+    let target: Vec3 = vec3(pos.x() + d[0] * dist, pos.y() + d[1] * dist, pos.z() + d[2] * dist);
+    let desc = format!("pos={:?}|dir={d:?}|dist={dist:e}{}", pos.0, if pre == 1 { "|after rotate_to(40,-20)" } else { "" });
+    let class = if dist == 0.0 { "target-at-camera" } else if dist < 1e-18 { "tiny" } else if dist > 1e18 { "huge" } else { "moderate" };
+    if let Err(p) = caught(|| fp.look_at(target.to())) { r.violation(format!("fp-look-at-scale|{class}|panic|{desc}"), format!("look_at({:?}) from {:?} panicked: {p}", target.0, pos.0), case()); return; }
+    let m = match caught(|| fp.world_to_view()) { Ok(m) => m, Err(p) => { r.violation(format!("fp-look-at-scale|{class}|panic|{desc}"), format!("world_to_view after look_at({:?}) from {:?} panicked: {p}", target.0, pos.0), case()); return; } };
+    let md: D4 = m.0.map(|row| row.map(|x| x as f64));
+    let det = det3(&md);
+    let mut ok = (det - 1.0).abs() <= 1e-5;
+    for a in 0..3 { for b in 0..3 { let dd: f64 = (0..3).map(|k| md[k][a] * md[k][b]).sum(); if !((dd - if a == b { 1.0 } else { 0.0 }).abs() <= 1e-5) { ok = false; } } }
+    let o = m.apply_pt(&pt3::<f32, World>(pos.x(), pos.y(), pos.z())).0;
+    if !ok || o.iter().any(|c| !(c.abs() <= 2e-6 * (1.0 + pos.len()))) {
+        r.violation(format!("fp-look-at-scale|{class}|rigid|{desc}"), format!("after look_at({:?}) from {:?} the view transform is not rigid or misplaces the camera: det {det}, camera -> {o:?}, matrix {:?}", target.0, pos.0, m.0), case());
+        return;
+    }
+    // the direction: only where the offset survives the addition to the position and its squared length is a normal float
+    let off = [target.x() - pos.x(), target.y() - pos.y(), target.z() - pos.z()];
+    let ol = (off.iter().map(|c| (*c as f64) * (*c as f64)).sum::<f64>()).sqrt();
+    let exact = (0..3).all(|k| ((off[k] as f64) - (d[k] as f64) * (dist as f64)).abs() <= 1e-6 * ol);
+    if class == "moderate" && exact && ol > 0.0 {
+        let got = apply_d(&md, [target.x() as f64, target.y() as f64, target.z() as f64]);
+        let tol = 2e-5 * ol + 4e-6 * (pos.len() as f64);
+        r.margin("fp-look-at-scale", got[0].abs().max(got[1].abs()).max((got[2] - ol).abs()) / ol.max(1e-300), tol / ol.max(1e-300));
+        if got[0].abs() > tol || got[1].abs() > tol || (got[2] - ol).abs() > tol {
+            r.violation(format!("fp-look-at-scale|{class}|direction|{desc}"), format!("look-at target {:?} maps to view {got:?}, expected (0,0,{ol})", target.0), case());
+            return;
+        }
+        r.nontrivial();
+    } else { r.h("fp-look-at-scale:rigidity-only"); }
+}
+
 fn run_proj(cfg: &Cfg) -> ! {
     let mut rep = Report::new();
     rep.merge(par_range(cfg, if cfg.quick() { 80 } else { 80 + 1200 }, check_perspective));
@@ -692,7 +772,7 @@ fn run_proj(cfg: &Cfg) -> ! {
     rep.merge(par_range(cfg, rects.len() as u64, |i, r| { let (l, t, rr, b) = rects[i as usize]; check_viewport(l, t, rr, b, r); }));
     rep.merge(par_range(cfg, 144 * 10 * 2, check_camera));
     rep.merge(par_range(cfg, 4 * 17 * 2, check_camera_range_forms));
-    rep.merge(par_range(cfg, 42, check_camera_empty_viewport));
+    rep.merge(par_range(cfg, 72, check_camera_empty_viewport));
     // FirstPerson::default() is FirstPerson::new(): same view transform, also after a translate (nothing resets the heading)
     {
         rep.eval();
@@ -703,6 +783,7 @@ fn run_proj(cfg: &Cfg) -> ! {
         if !same(&d, &n) || !same(&d2, &n2) { rep.violation("fp-default|".into(), format!("FirstPerson::default().world_to_view() = {:?} but FirstPerson::new().world_to_view() = {:?}", caught(|| d.world_to_view().0), caught(|| n.world_to_view().0)), obj! {"kind" => "fp-default"}); } else { rep.nontrivial(); }
     }
     rep.merge(par_range(cfg, 54 * 29 * 8 * 6, check_first_person));
+    rep.merge(par_range(cfg, 7 * 14 * 2 * 2, check_fp_look_at_scale));
     let _: Angle = degs(0.0);
     let _: Option<Point3> = None;
     let _ = <FirstPerson as Mode>::world_to_view;
@@ -721,6 +802,7 @@ fn main() {
             let i = c.get("i").and_then(|j| j.as_u64()).unwrap_or(0);
             match c.get("kind").and_then(|j| j.as_str()).unwrap_or("") {
                 "word" => { let w: Vec<usize> = c.get("word").unwrap().as_arr().unwrap().iter().map(|x| x.as_u64().unwrap() as usize).collect(); check_word(&w, &gens, r) }
+                "word-scale" => { let w: Vec<usize> = c.get("word").unwrap().as_arr().unwrap().iter().map(|x| x.as_u64().unwrap() as usize).collect(); check_word_in(&w, &scale_generators(), "word-scale", r) }
                 "ctor" => check_constructors(r),
                 "persp" => check_perspective(i, r),
                 "ortho" => check_ortho(i, r),
@@ -730,6 +812,7 @@ fn main() {
                 "camera-empty" => check_camera_empty_viewport(i, r),
                 "fp-default" => { let (d, n) = (FirstPerson::default(), FirstPerson::new()); if caught(|| d.world_to_view().0) != caught(|| n.world_to_view().0) || caught(|| d.world_to_view()).is_err() { r.violation("fp-default|".into(), "FirstPerson::default() differs from new()".into(), J::Null); } }
                 "fp" => check_first_person(i, r),
+                "fp-scale" => check_fp_look_at_scale(i, r),
                 k => machinery_error(&format!("unknown replay kind {k}")),
             }
         });
